@@ -33,7 +33,7 @@ TAU = 3e-9
 
 
 def cases(tier, seed):
-    n = 48 if tier == "quick" else 1600
+    n = 48 if tier == "quick" else 16000
     return [{"rep": i, "kind": gen.KINDS[i % 3], "seed": seed} for i in range(n)]
 
 
